@@ -74,6 +74,9 @@ def tree_hash():
 VARIANTS = {
     # name: (cmake args, extra c flags for the harness)
     "san": (["-DWITH_SIMD=0", "-DCMAKE_BUILD_TYPE=None", "-DCMAKE_C_FLAGS=" + SAN_FLAGS], SAN_FLAGS),
+    # san with the LJT_VERIF_POOLS hook of src/jmemmgr.c: every small object of the library's pools is a malloc block of its own,
+    # so that ASan sees overruns of objects that otherwise sit inside one pool block
+    "sanp": (["-DWITH_SIMD=0", "-DCMAKE_BUILD_TYPE=None", "-DCMAKE_C_FLAGS=" + SAN_FLAGS + " -DLJT_VERIF_POOLS"], SAN_FLAGS),
     "simd": (["-DWITH_SIMD=1", "-DCMAKE_BUILD_TYPE=Release", "-DCMAKE_C_FLAGS=-g"], "-O2 -g"),
     "plain": (["-DWITH_SIMD=0", "-DCMAKE_BUILD_TYPE=Release", "-DCMAKE_C_FLAGS=-g"], "-O2 -g"),
     "tsan": (["-DWITH_SIMD=1", "-DCMAKE_BUILD_TYPE=None", "-DCMAKE_C_COMPILER=clang",
